@@ -122,9 +122,12 @@ func (r *scopeRegistry) Report(reporter StatsReporter) {
 		subscopeBucket.mu.RLock()
 
 		for name, s := range subscopeBucket.s {
+			// n.b. Sample the flag before reporting: everything recorded
+			//      before Close() is then covered by this report.
+			closed := s.closed.Load()
 			s.report(reporter)
 
-			if s.closed.Load() {
+			if closed {
 				r.removeWithRLock(subscopeBucket, name, s)
 				s.clearMetrics()
 			}
@@ -142,9 +145,12 @@ func (r *scopeRegistry) CachedReport() {
 		subscopeBucket.mu.RLock()
 
 		for name, s := range subscopeBucket.s {
+			// n.b. Sample the flag before reporting: everything recorded
+			//      before Close() is then covered by this report.
+			closed := s.closed.Load()
 			s.cachedReport()
 
-			if s.closed.Load() {
+			if closed {
 				r.removeWithRLock(subscopeBucket, name, s)
 				s.clearMetrics()
 			}
